@@ -270,6 +270,10 @@ def interleave(*gens):
 
 
 def cases(rng, tier):
+    import os
+    only = os.environ.get("VERIF_ONLY")
+    if only == "corpus":
+        return corpus_cases(rng.fork("corpus"), tier)
     streams = [corpus_cases(rng.fork("corpus"), tier)]
     streams.append(gen.chain_cases(rng.fork("chains"), tier))
     streams.append(gen.termination_cases(rng.fork("term"), tier))
